@@ -938,7 +938,7 @@ def analyse(mod, fname, make_args, max_worlds=64, max_steps=2000000, gcache=None
     """Run `fname` in every world.  make_args() -> (args, regions) must build
     fresh argument values and regions for each execution.  Returns the list of
     World objects (status 'ok' or 'undecided')."""
-    if fname not in mod.functions:
+    if not callable(fname) and fname not in mod.functions:
         raise KeyError(fname)
     worlds = []
     pending = [[]]
@@ -955,7 +955,11 @@ def analyse(mod, fname, make_args, max_worlds=64, max_steps=2000000, gcache=None
         args, regions = make_args()
         m = Machine(mod, regions, prefix, max_steps, gcache)
         try:
-            m.w.ret = m.call(fname, args)
+            if callable(fname):
+                # a script: several calls on the same regions, one world
+                m.w.ret = fname(m, args)
+            else:
+                m.w.ret = m.call(fname, args)
         except Undecided as e:
             m.w.status = 'undecided'
             m.w.reason = str(e)
